@@ -318,6 +318,45 @@ def check_variant(chk, v):
         okw = lp["lo"] == ZERO and hi == sym.add(K, I(1)) and a[0] == sym.padd(sym.sym(wr), sym.mul(i, P(wp, "l"))) and \
             a[1] == sym.addr(sym.idx(P(ws, "a"), i)) and a[2] == sym.sym(wp)
         detw = "component i in [0,k] -> digits [i*l, (i+1)*l)"
+        if okw and calls[0]["guards"]:
+            # the decomposition is skipped on some path (a shortcut): on that path all l digit polynomials of the window must
+            # still be written -- index coverage of the writers that run when the guard fails
+            from sa import coverage
+            Lw = P(wp, "l")
+            gset = calls[0]["guards"]
+            alt = [p for p in wps if p is not calls[0] and p["kind"] in ("call", "store") and p["guards"] != gset and
+                   ((p["kind"] == "call" and p["args"] and p["args"][0] is not None and sym.root_of(p["args"][0]) == sym.sym(wr)) or
+                    (p["kind"] == "store" and sym.root_of(p["lv"]) == sym.sym(wr)))]
+            terms = []
+            for q in alt:
+                if q["kind"] != "call":
+                    chk.broken("tGswTLweDecompH: shortcut path writes the digits with a statement this rule does not analyse (line %s)" % q["line"])
+                ptr = q["args"][0]
+                base, off = bounds.split_base_offset(ptr)
+                if base != sym.sym(wr):
+                    chk.broken("tGswTLweDecompH: shortcut writer %s" % sym.show(ptr))
+                rel_ = sym.sub(off, sym.mul(i, Lw))
+                inner = [l_ for l_ in q["loops"] if l_ is not lp and l_["var"] != i]
+                if inner:
+                    terms.append((inner[-1], rel_, 1))
+                else:
+                    cst = sym.const_value(rel_)
+                    if cst is None:
+                        chk.broken("tGswTLweDecompH: shortcut writer offset %s" % sym.show(rel_))
+                    u = sym.sym("u@%s" % q["line"])
+                    terms.append(({"var": u, "lo": I(cst), "cmp": "<", "hi": I(cst + 1), "step": I(1), "l": q["line"]}, u, 1))
+            if not terms:
+                okw, detw = False, "when %s fails the digits of the window are not written at all" % [sym.show(g)[:60] for g in gset]
+            else:
+                status, why = coverage.cover_1d(terms, Lw)
+                if status == "unknown":
+                    chk.broken("tGswTLweDecompH: %s" % why)
+                if status == "refuted":
+                    okw = False
+                    detw = ("on the shortcut path (when %s does not hold) only part of the window of l digit polynomials is written (%s, with n = l): "
+                            "the remaining digits keep whatever the caller's buffer held" % ([sym.show(g)[:80] for g in gset][-1], why))
+                else:
+                    detw += "; shortcut path writes all l digits"
     chk.require(okw, "R6", "tGswTLweDecompH decomposes all k+1 polynomials into disjoint windows of l digits", where=w.where,
                 ok=detw, bad=detw, variant=vn)
     chk.proved("R6", "%s build uses the %s path and yields the same (shift, mask, subtract) triple" % (v.cfg, via),
